@@ -144,9 +144,15 @@ struct Coder : Profile {
                     p.ops.push_back(mkop(0, names[k], {e}));
                     wr[e] = false;
                     break;
-                case 5:
+                case 5: // second argument 1: walk all elements of the tag with one access id (Hnextread)
                     e = pick(dat, NEL, true);
-                    p.ops.push_back(mkop(0, names[k], {e}));
+                    if (r.chance(0.35)) {
+                        p.ops.push_back(mkop(0, names[k], {e, 1}));
+                        for (int q = 0; q < NEL; q++)
+                            wr[q] = false;
+                    }
+                    else
+                        p.ops.push_back(mkop(0, names[k], {e}));
                     wr[e] = false;
                     break;
                 case 3:
@@ -577,6 +583,46 @@ struct Coder : Profile {
                 else {
                     open_h(s, ndds);
                     end_writer(s, e); // readers see the stream once the writer has finished it
+                    bool walk = k == "csize" && o.arg(1) == 1;
+                    for (int q = 0; walk && q < NEL; q++)
+                        walk &= !s.el[q].exists || !s.el[q].data.empty();
+                    if (walk) {
+                        // one access id moved from element to element: on each it starts at the beginning, and a read of
+                        // "the rest" gives the whole element
+                        for (int q = 0; q < NEL; q++)
+                            if (s.el[q].exists)
+                                end_writer(s, q);
+                        int32 aid = Hstartread(s.fid, 8900, DFREF_WILDCARD);
+                        int   seen = 0;
+                        while (aid != FAIL) {
+                            uint16 tg = 0, rf = 0;
+                            int32  len = -1, off = -1, posn = -1;
+                            int16  acc = 0, spec = 0;
+                            if (Hinquire(aid, NULL, &tg, &rf, &len, &off, &posn, &acc, &spec) == FAIL || rf < 1 || rf > NEL || !s.el[rf - 1].exists)
+                                ctx.fail("walk-mismatch", "walk-mismatch:inquire", strf("Hinquire on the walking access id fails or names an element that does not exist (%u/%u)", tg, rf));
+                            MEl &w = s.el[rf - 1];
+                            ctx.st.checks++;
+                            if (posn != 0 || len != (int32)w.data.size() || Htell(aid) != 0)
+                                ctx.fail("walk-mismatch", strf("walk-mismatch:start:%s", cname(w.coder)),
+                                         strf("the access id moved on to element %u (%s): position %d (Htell %d), length %d; the element has %zu bytes", rf, cname(w.coder), (int)posn, (int)Htell(aid), (int)len, w.data.size()));
+                            std::vector<uint8_t> buf(w.data.size() + 16, 0xEE);
+                            int32                got = Hread(aid, 0, buf.data());
+                            if (got != (int32)w.data.size() || memcmp(buf.data(), w.data.data(), w.data.size()) != 0)
+                                ctx.fail("walk-mismatch", strf("walk-mismatch:read:%s", cname(w.coder)),
+                                         strf("reading the rest of element %u (%s) through the walking access id returns %d of %zu bytes or other bytes", rf, cname(w.coder), (int)got, w.data.size()));
+                            seen++;
+                            if (Hnextread(aid, 8900, DFREF_WILDCARD, DF_CURRENT) == FAIL)
+                                break;
+                        }
+                        int want = 0;
+                        for (int q = 0; q < NEL; q++)
+                            want += s.el[q].exists;
+                        if (aid == FAIL || seen != want)
+                            ctx.fail("walk-mismatch", "walk-mismatch:count", strf("walking the tag with Hnextread visits %d elements, %d exist", seen, want));
+                        if (Hendaccess(aid) == FAIL)
+                            ctx.fail("end-failed", "end-failed:walk", "Hendaccess of the walking access id failed");
+                        ctx.probe("walked-with-hnextread");
+                    }
                     if (k == "cread")
                         read_pattern(s, e, (uint64_t)o.arg(1), (int)o.arg(2), "in session");
                     else {
